@@ -372,6 +372,15 @@ pub fn der_value() -> BoxedStrategy<Vec<u8>> {
 		any::<bool>().prop_map(|b| vec![0x01, 0x01, if b { 0xff } else { 0x00 }]),
 		moderate_oid().prop_map(|o| crate::der::enc_oid(&o)),
 		vec(any::<u8>(), 120..300).prop_map(|b| crate::der::enc_tlv(0x04, &b)),
+		// long values whose last octets are zero (and values that are nothing but zeros)
+		(vec(any::<u8>(), 120..300), 1usize..6).prop_map(|(mut b, z)| {
+			let n = b.len();
+			for x in &mut b[n - z..] {
+				*x = 0;
+			}
+			crate::der::enc_tlv(0x04, &b)
+		}),
+		(0usize..300).prop_map(|n| crate::der::enc_tlv(0x04, &vec![0u8; n])),
 	];
 	leaf.prop_recursive(2, 8, 4, |inner| {
 		prop_oneof![
@@ -396,7 +405,7 @@ pub fn colliding_custom_ext() -> impl Strategy<Value = CustomExtSpec> {
 
 pub fn custom_ext(moderate: bool) -> impl Strategy<Value = CustomExtSpec> {
 	prop_oneof![
-		8 => (custom_ext_oid(moderate), any::<bool>(), prop_oneof![4 => der_value(), 1 => vec(any::<u8>(), 0..24)])
+		8 => (custom_ext_oid(moderate), any::<bool>(), prop_oneof![8 => der_value(), 2 => vec(any::<u8>(), 0..24).boxed(), 1 => (0usize..40).prop_map(|n| vec![0u8; n]).boxed()])
 			.prop_map(|(oid, critical, content)| CustomExtSpec { oid, critical, content: Hex(content), acme: false }),
 		1 => (vec(any::<u8>(), 32), any::<bool>()).prop_map(|(d, critical)| CustomExtSpec {
 			oid: vec![1, 3, 6, 1, 5, 5, 7, 1, 31],
